@@ -4,7 +4,9 @@ All call histories of the grammar  (open(missing)|open(unwritable))^0..3 , [open
 body , destroy  with body over {read, close} (read sessions, reads also after close and beyond the end) resp.
 write^a close^b (write sessions), total length <= 12, on input files of {0,1,3,11,50} objects (11 and 50 exceed the queue
 capacity): each under the default schedule and the 6 static priority orders, the abandonment histories (close / destroy
-with objects pending) additionally with every single deviation (bound 1, bound 2 on the short ones); a sub-grid under
+with objects pending) additionally with every single deviation (bound 1, bound 2 on the short ones); the histories on files of 3 and 11 objects and the
+write histories again with the decoded-stream buffer (64 bytes) smaller than the file, so that a stage is blocked on buffer
+space when the session is abandoned; a sub-grid under
 AddressSanitizer (double free / use after free)."""
 import itertools
 
@@ -98,6 +100,14 @@ def stages(tier):
     fullq = [(h, 3, True) for h in ("I.D", "I.C.D", "I.R.D", "I.R.C.D", "I.R.C.C.D", "I.R.R.D", "I.R.R.C.D", "I.A.R.C.D", "I.B.R.C.D", "M.I.R.C.D")]
     st.append(dict(label="H2: short abandonment histories, every pair of deviations", harness="h_hist", variant="sched", chunk=2,
                    configs=cfgs(short if not quick else short[::4], bound=2) + cfgs(fullq, bound=2, q=1), share=0.4))
+    # the inflating stage blocked on buffer space when the session is abandoned: stream buffer (64) smaller than the file
+    # (containers of 100 bytes), queue capacity 1 and 10
+    small = [x for x in allh if x[1] in (3, 11) or "W.W.W" in x[0]]
+    smallab = [x for x in small if x[2]]
+    st.append(dict(label="HB: histories with the stream buffer smaller than the file, default schedule + static orders; abandonment with every single deviation",
+                   harness="h_hist", variant="sched",
+                   configs=cfgs(small, bound=0, buf=64) + cfgs(small[::2] if quick else small, static=1, bound=0, buf=64) + cfgs(small[::3] if quick else small, bound=0, buf=64, q=1)
+                   + cfgs(smallab[::9] if quick else smallab, bound=1, buf=64) + cfgs(smallab[::9] if quick else smallab[::2], bound=1, buf=64, q=1), share=0.5))
     asan = allh[::7] if quick else allh[::2]
     st.append(dict(label="HA: AddressSanitizer, default schedule + static orders", harness="h_hist", variant="sched-asan",
                    configs=cfgs(asan, bound=0) + cfgs(asan[::3], static=1, bound=0) + cfgs([x for x in asan if x[2]][::4], bound=1, postrelease=1), share=0.5))
